@@ -497,9 +497,10 @@ static inline void mzd_and_bits(mzd_t *M, rci_t const x, rci_t const y, int cons
   int const spot   = y % m4ri_radix;
   wi_t const block = y / m4ri_radix;
   word *row = mzd_row(M, x);
-  row[block] &= values << spot;
+  word const mask = m4ri_ffff >> (m4ri_radix - n); /* the n addressed columns, moved the same way */
+  row[block] &= (values << spot) | ~(mask << spot);
   int const space = m4ri_radix - spot;
-  if (n > space) { row[block + 1] &= values >> space; }
+  if (n > space) { row[block + 1] &= (values >> space) | ~(mask >> space); }
 }
 
 /**
